@@ -40,11 +40,43 @@ def build(chk, sc, repo, tool):
     return binp
 
 
+def race_build(chk, sc, tool):
+    """the tool from a pristine copy of the working tree (+ the inactive simrt package), test binary built with -race"""
+    repo = os.path.join(sc.dir, "repo-pristine")
+    if not os.path.isdir(repo):
+        repo, _ = chk.prepare(sc, "pristine", instrument=False)
+    d = os.path.join(repo, "tools", tool)
+    src = os.path.join(chk.VERIF, "harness", "toolsim")
+    shutil.copy(os.path.join(src, "common_test.go.txt"), os.path.join(d, "zz_verif_common_test.go"))
+    shutil.copy(os.path.join(src, tool + "_test.go.txt"), os.path.join(d, "zz_verif_%s_test.go" % tool))
+    opt = os.path.join(src, tool + "_1e8w_test.go.txt")
+    optdst = os.path.join(d, "zz_verif_%s_1e8w_test.go" % tool)
+    if os.path.exists(opt):
+        shutil.copy(opt, optdst)
+    binp = os.path.join(sc.dir, tool + ".race.test")
+    env = dict(chk.ENV)
+    env["CGO_ENABLED"] = "1"
+    cmd = [chk.GO, "test", "-race", "-c", "-o", binp, "./tools/" + tool]
+    rc, o = chk.run(cmd, cwd=repo, env=env)
+    if rc != 0 and os.path.exists(opt):
+        shutil.copy(os.path.join(src, tool + "_1e8w_stub_test.go.txt"), optdst)
+        rc, o2 = chk.run(cmd, cwd=repo, env=env)
+    if rc != 0:
+        chk.die("real-scheduler monitor for %s does not build:\n%s" % (tool, o))
+    # the tool itself, as a user would build it, plus the race detector
+    toolbin = os.path.join(sc.dir, tool + ".race.bin")
+    rc, o = chk.run([chk.GO, "build", "-race", "-o", toolbin, "./tools/" + tool], cwd=repo, env=env)
+    if rc != 0:
+        chk.die("real-scheduler monitor: %s does not build with -race:\n%s" % (tool, o))
+    return binp
+
+
 def warmup(chk, sc):
     repo = os.path.join(sc.dir, "repo-sched")
     for tool in ("rdgen", "rddetector"):
         if os.path.exists(os.path.join(chk.VERIF, "harness", "toolsim", tool + "_test.go.txt")):
             build(chk, sc, repo, tool)
+            race_build(chk, sc, tool)
 
 
 def main(chk, a, tier, seed):
@@ -70,10 +102,44 @@ def main(chk, a, tier, seed):
             jobs.append({"prop": prop, "tier": tier, "seed": seed, "i": i, "n": n, "out": os.path.join(work, "out_%d.json" % i),
                          "replay_dir": replay_dir, "budget_s": budget, "repo_rev": rev, "det_check": 10 if tier == "quick" else 40,
                          "replay": os.path.abspath(a.replay) if a.replay else "", "work_dir": wd})
+        # auxiliary real-scheduler monitor: the pristine tool under the race detector, real goroutines on 1/2/4/16 CPUs,
+        # same plan and same oracle; catches what a serialised simulation cannot (torn updates of shared memory)
+        import threading
+        import engine_libsim as el
+        race = {}
+
+        def race_thread():
+            try:
+                rbin = race_build(chk, sc, tool)
+                race["res"] = el.race_run(chk, rbin, work, prop, "quick" if tier == "quick" else "racethorough", seed, rev, replay_dir, 25 if tier == "quick" else 900,
+                                          extra_env={"VERIF_TOOL_BIN": os.path.join(sc.dir, tool + ".race.bin")})
+            except SystemExit as e:
+                race["exit"] = e.code
+
+        th = None
+        if not a.replay:
+            th = threading.Thread(target=race_thread)
+            th.start()
         outs, bad = chk.launch(binp, jobs, work, 6 * 3600 if tier == "thorough" else 1500)
         chk.sanity_verdict(san, sc)
+        if th is not None:
+            th.join()
         if bad:
             chk.die("engine process trouble: %s" % "\n".join("proc %d rc=%s\n%s" % b for b in bad))
-        return chk.finish(prop, tier, seed, t0, outs, istats, a, components=COMPONENTS[prop], rule=RULE[prop])
+        extra_cov = None
+        if th is not None:
+            if "res" not in race:
+                chk.die("real-scheduler monitor could not be built or run")
+            routs, races, rbad = race["res"]
+            if rbad:
+                chk.die("real-scheduler monitor trouble: %s" % "\n".join("cpus %d rc=%s\n%s" % b for b in rbad))
+            rf = el.race_found(chk, prop, seed, races, replay_dir)
+            rmis = []
+            for o in routs:
+                rmis += o.get("found") or []
+            extra_cov = {"race_monitor": {"executions": sum(o["executions"] for o in routs), "cpu_counts": [1, 2, 4, 16], "races_reported": len(races),
+                                          "note": "auxiliary monitor: the pristine tool, go test -race, real goroutines under taskset, schedule not controlled, same plan and oracle"}}
+            outs.append({"found": rf + rmis, "cases": 0, "executions": 0, "steps": 0, "choices": 0})
+        return chk.finish(prop, tier, seed, t0, outs, istats, a, components=COMPONENTS[prop], rule=RULE[prop], extra_cov=extra_cov)
     finally:
         sc.cleanup()
